@@ -63,7 +63,7 @@ C13_OPS = [
 C13_QUERY_OPS = ["c_vars", "tl_vars", "c_hash", "compound_misc", "compound_file", "contains_behavior", "evaluate", "is_empty", "contains_environment", "contains_implementation", "vertices",
                  "compound_from_strings", "compound_merge", "compound_le", "c_eq", "tl_eq", "c_str"]
 # further public operations in C14's quantifier
-C14_EXTRA_OPS = ["c_vars", "tl_vars", "compound_misc", "compound_file", "contains_behavior", "evaluate", "is_empty", "compound_from_strings", "compound_merge", "compound_le",
+C14_EXTRA_OPS = ["plot_assumptions", "plot_guarantees", "c_vars", "tl_vars", "compound_misc", "compound_file", "contains_behavior", "evaluate", "is_empty", "compound_from_strings", "compound_merge", "compound_le",
                  "vertices", "contains_environment", "contains_implementation", "validate_dict", "c_eq", "tl_eq", "c_str", "c_hash"]
 
 
@@ -167,6 +167,14 @@ def call(name: str, a: Dict[str, Any]) -> Any:  # noqa: WPS212, WPS231
         fileio.write_contracts_to_file([c1, a["self"]], ["k", "plain"], a["file_name"], False)
         cs, names = fileio.read_contracts_from_file(a["file_name"])
         return [cs[0].to_dict(), cs[1], names]
+    if name in ("plot_assumptions", "plot_guarantees"):
+        import pacti.terms.polyhedra.polyhedra as _pl  # noqa: WPS433
+        import pacti.utils.plots as plots  # noqa: WPS433
+
+        plots.linprog = _pl.linprog
+        fn = plots.plot_assumptions if name == "plot_assumptions" else plots.plot_guarantees
+        fig = fn(a["self"], a["x_var"], a["y_var"], a["var_values"], a["x_lims"], a["y_lims"], show=False)
+        return type(fig).__name__
     if name == "vertices":
         import pacti.terms.polyhedra.polyhedra as _pl  # noqa: WPS433
         import pacti.utils.plots as plots  # noqa: WPS433
@@ -822,6 +830,15 @@ def gen_step(rs, view: View, allowed_ops: List[str], weights: Optional[Dict[str,
                 gap = rs.choice([0.5, 0.25]) if r_gap < 0.85 else (0 if r_gap < 0.95 else -0.5)
                 a.append(["%s >= %s" % (iv, lo), "%s <= %s" % (iv, hi - gap)])
             g = [["%s <= %s%s" % (ov, rs.choice(["2", "3", ""]), iv)], ["%s >= %s" % (ov, rs.choice(["0", "1"]))]][: rs.choice([1, 2])]
+            r_sh = rs.random()
+            if r_sh < 0.06:
+                a = []  # no piece at all
+            elif r_sh < 0.12:
+                a = a[:1] + [[]]  # a piece without constraints (overlaps everything)
+            elif r_sh < 0.18:
+                g = []
+            elif r_sh < 0.24:
+                g = g + [[]]
             return {"assumptions": a, "guarantees": g, "input_vars": [iv], "output_vars": [ov]}
 
         if name == "compound_from_strings":
@@ -842,6 +859,29 @@ def gen_step(rs, view: View, allowed_ops: List[str], weights: Optional[Dict[str,
         else:
             A["c1"] = _lit(comp())
             A["c2"] = _lit(comp())
+    elif name in ("plot_assumptions", "plot_guarantees"):
+        c = view.pool[ci]["C"]
+        mention = view.tl_vars(c[2]) if name == "plot_assumptions" else view.tl_vars({"TL": c[2]["TL"] + c[3]["TL"]})
+        allv = view.cvars(ci)
+        cand = [n for n in mention] + [n for n in allv if n not in mention]
+        xs = cand[:2] if len(cand) >= 2 else (cand + [n for n in NAMES if n not in cand])[:2]
+        if rs.random() < 0.5:
+            xs = xs[::-1]
+        others = [n for n in mention if n not in xs]
+        as_str = rs.random() < 0.5
+        key = (lambda n: n) if as_str else (lambda n: Var(n))  # noqa: E731
+        vals = {key(nm): float(rs.choice([0, 1, 2, -1])) for nm in others}
+        if others and rs.random() < 0.1:
+            vals.pop(key(others[0]))
+        if rs.random() < 0.05:
+            vals[key(rs.choice(NAMES))] = 1.0
+        lo, hi = float(rs.choice([-10, 0, -1])), float(rs.choice([10, 5, 100]))
+        A["self"] = {"slot": ci}
+        A["x_var"] = _lit(xs[0] if as_str else Var(xs[0]))
+        A["y_var"] = _lit(xs[1] if as_str else Var(xs[1]))
+        A["var_values"] = _lit(vals)
+        A["x_lims"] = _lit((lo, hi) if rs.random() < 0.9 else (hi, lo))
+        A["y_lims"] = _lit((float(rs.choice([-10, 0, -1])), float(rs.choice([10, 5, 100]))))
     elif name == "vertices":
         vs = view.tl_vars(view.pool[li])
         xs = vs[:2] if len(vs) >= 2 else (vs + [n for n in NAMES if n not in vs])[:2]
@@ -853,7 +893,8 @@ def gen_step(rs, view: View, allowed_ops: List[str], weights: Optional[Dict[str,
         A["x_var"] = _lit(Var(xs[0]))
         A["y_var"] = _lit(Var(xs[1]))
         A["var_values"] = _lit(vals)
-        A["x_lims"] = _lit((float(rs.choice([-10, 0, -1])), float(rs.choice([10, 5, 100]))))
+        xl = (float(rs.choice([-10, 0, -1])), float(rs.choice([10, 5, 100])))
+        A["x_lims"] = _lit(xl if rs.random() < 0.92 else (xl[1], xl[0]))  # sometimes in the wrong order: an empty region
         A["y_lims"] = _lit((float(rs.choice([-10, 0, -1])), float(rs.choice([10, 5, 100]))))
     elif name == "validate_dict":
         A["d"] = _lit(machine_dict_of(view.pool[ci]))
